@@ -5,7 +5,7 @@ cat > /tmp/spec-$$.json <<EOT
 {"property":"$P","tier":"$TIER","seed":$SEED,"start":$START,"count":$COUNT,"mode":"run","out":"/tmp/out-$$.jsonl","samples":0}
 EOT
 rm -f /tmp/out-$$.jsonl
-GOMAXPROCS=1 GODEBUG=asyncpreemptoff=1,randautoseed=0 VERIF_SPEC=/tmp/spec-$$.json $S/harness/worker -test.run TestWorker -test.timeout 60m 2>&1 | tail -15
+(cd $S/harness && GOMAXPROCS=1 GODEBUG=asyncpreemptoff=1,randautoseed=0 VERIF_SPEC=/tmp/spec-$$.json ./worker -test.run TestWorker -test.timeout 60m 2>&1) | tail -15
 python3 - /tmp/out-$$.jsonl <<'EOT'
 import json,sys,collections
 n=0;bad=0;ms=0;rules=collections.Counter()
